@@ -72,6 +72,7 @@ type c03Env struct {
 	root    string
 	seq     int
 	keyDir  string
+	decoy   string
 	db      *gorm.DB
 	client  *Crypto
 	pubs    []string // key registry: PKIX DER (hex) of every public key the store returned, index = K<n>
@@ -256,6 +257,19 @@ func (e *c03Env) reset() {
 	}
 	e.client = NewTestCryptoInstance(e.db, spi.NewValidatedKIDBackendWrapper(be, spi.KidPattern))
 	e.pubs, e.pubKeys = nil, nil
+	// a decoy key file OUTSIDE the key directory (its sibling): the key name "../escape" would address it
+	e.decoy = filepath.Join(filepath.Dir(e.keyDir), "escape_private.pem")
+	if der, err := x509.MarshalPKCS8PrivateKey(e.pkgKey); err == nil {
+		_ = os.WriteFile(e.decoy, pem.EncodeToMemory(&pem.Block{Type: "PRIVATE KEY", Bytes: der}), 0o600)
+	}
+}
+
+// flags appended to an outcome line when something outside the key directory was touched (the model never prints them)
+func (e *c03Env) decoyFlags() string {
+	if _, err := os.Stat(e.decoy); err != nil {
+		return " DECOY-GONE"
+	}
+	return ""
 }
 
 // which of all public keys the store ever returned verify this compact JWS
@@ -330,7 +344,7 @@ func (e *c03Env) exec(op map[string]interface{}) (line string) {
 	case "delete":
 		err := e.client.Delete(ctx, str("kid"))
 		e.sink("returns", err)
-		return "delete " + c03Err(err)
+		return "delete " + c03Err(err) + e.decoyFlags()
 	case "migrate":
 		err := e.client.Migrate()
 		e.sink("returns", err)
@@ -354,6 +368,11 @@ func (e *c03Env) exec(op map[string]interface{}) (line string) {
 		}
 		e.sinkToken(tok)
 		res := "sign " + str("how") + " ok verifies=" + e.verifiers(tok)
+		if msg, err := jws.Parse([]byte(tok)); err == nil && len(msg.Signatures()) == 1 {
+			if _, err := jws.Verify([]byte(tok), jws.WithKey(msg.Signatures()[0].ProtectedHeaders().Algorithm(), &e.pkgKey.PublicKey)); err == nil {
+				res += " SIGNED-WITH-DECOY-KEY-OUTSIDE-KEY-DIR"
+			}
+		}
 		if msg, err := jws.Parse([]byte(tok)); err == nil && str("how") != "dpop" {
 			if got := msg.Signatures()[0].ProtectedHeaders().KeyID(); got != kid {
 				res += " KID-HEADER=" + got
